@@ -25,6 +25,16 @@ def build(V, cfg):
     wn.add_valve('VT', 'J2', 'J3', 0.3, 'TCV', 0.0, 10.0)
     wn.add_pump('PP', 'R', 'J3', 'POWER', 3000.0)
     wn.add_pipe('P3', 'J3', 'T')
+    if cfg.get('dead_end'):
+        # a junction fed only from the tank: when the tank reaches its minimum level the simulator itself closes P4 and J4 is cut off
+        wn.add_junction('J4', base_demand=0.01, elevation=0.0)
+        wn.add_pipe('P4', 'T', 'J4')
+        wn.get_node('T')._min_level = V.real('tank_min', 3.0, 4.9)
+        # supply returns later through a pipe from the reservoir straight into the tank, opened by a time control (at the minimum
+        # level the simulator re-opens a link through which the tank would fill)
+        wn.add_pipe('PT', 'R', 'T', initial_status='CLOSED')
+        wn.get_link('PT')._user_status = LinkStatus.Closed
+        wn.add_control('refill', Control(SimTimeCondition(wn, Comparison.eq, cfg.get('refill_at', 2 * cfg['H'] + 1800)), ControlAction(wn.get_link('PT'), 'status', LinkStatus.Open)))
     t = wn.options.time
     t.hydraulic_timestep = cfg['H']
     t.rule_timestep = cfg.get('R', cfg['H'])
@@ -72,10 +82,12 @@ def build(V, cfg):
     return wn
 
 
-def policy():
+def policy(tank_q=TANK_Q):
     def flow_of(plane, wn, ln):
         if ln == 'P3':
-            return TANK_Q
+            return tank_q(wn) if callable(tank_q) else tank_q
+        if ln == 'PT':
+            return 0.05
         return 0.004
     return ctrlplane.table_policy(flow_of, lambda pl, wn, nn: 35.0, leak_of=lambda pl, wn, nn: 0.002)
 
